@@ -147,6 +147,37 @@ def nesting_instances(tier, seed):
             out.append(make_instance(0, sc, g, q, {}, cls={"family": "nesting", "modes": list(triple), "variant": variant}))
     return out
 
+
+def sharedvar_instances(tier, seed):
+    """one query variable consumed at TWO sites whose implied types differ only in nullability (scalar or list element): a property filter
+    (= / one_of / contains / < on Int!, Int, [Int!]) at the root, inside the fold or in a plain child scope, and a fold-count filter
+    (= / >= / one_of: Int!, [Int!]!) or a second property filter; both textual orders.  The recorded variable type must be the
+    intersection of the implied ones whatever the order of the uses (C12: "the type the query implies for that variable")."""
+    import itertools, foldfam
+    sc = VS1(); g = foldfam.fold_graph(sc, 4)
+    psites = [("id", "="), ("val", "="), ("val", "<"), ("tags", "contains"), ("id", "one_of"), ("val", "one_of"), ("id", "not_one_of"), ("val", "not_one_of")]
+    csites = ["=", ">=", "one_of", "not_one_of"]
+    islist = lambda op: op in ("one_of", "not_one_of")
+    out = []
+    def emit(q, lst, cls):
+        out.append(make_instance(0, sc, g, q, {"v": L([I(0), I(2)]) if lst else I(1)}, cls=dict(cls, family="sharedvar")))
+    for (pp, pop), cop in itertools.product(psites, csites):
+        if islist(pop) != islist(cop): continue
+        for where in ("root", "in_fold", "sibling_before", "sibling_after"):
+            pf = prop_node(pp, filters=[FVar(pop, "v")])
+            fold = edge_node("next", "fold", alias="a", props=[prop_node("val", outputs=["v0"])] + ([pf] if where == "in_fold" else []))
+            fold["count"] = {"filters": [FVar(cop, "v")], "outputs": [{"name": "n0"}], "tags": []}
+            rootprops = [prop_node("id", outputs=["rid"])] + ([pf] if where == "root" else [])
+            sib = edge_node("peer", "optional", alias="b", props=[prop_node("name", outputs=["pn"]), pf])
+            edges = {"root": [fold], "in_fold": [fold], "sibling_before": [sib, fold], "sibling_after": [fold, sib]}[where]
+            emit(edge_node("Nodes", props=rootprops, edges=edges), islist(pop), {"sites": [f"{pp} {pop}", f"count {cop}"], "where": where})
+    for (p1, o1), (p2, o2) in itertools.permutations(psites, 2):
+        if islist(o1) != islist(o2) or p1 == p2: continue
+        child = edge_node("peer", "plain", alias="b", props=[prop_node("name", outputs=["pn"]), prop_node(p2, filters=[FVar(o2, "v")])])
+        emit(edge_node("Nodes", props=[prop_node("id", outputs=["rid"]), prop_node(p1, filters=[FVar(o1, "v")])], edges=[child]), islist(o1),
+             {"sites": [f"{p1} {o1}", f"{p2} {o2}"], "where": "root_then_child"})
+    return out
+
 def systematic_instances(tier, seed):
     import hintfam, foldfam
     out = rec_instances(tier, seed) + tag_instances(tier, seed) + nesting_instances(tier, seed)
